@@ -29,12 +29,14 @@ enum VCall { None, Str(String), Metric(Obs, u32, Vec<(String, String)>, bool), I
 enum Wrapper { Dims(Vec<(String, String)>), Forced }
 /// what a flattened field holds: Child | Some(child) | None::<Child> | a wrapper around the child
 #[derive(Clone, Debug, PartialEq)]
-enum OptMode { Plain, Some, None, Wrapped(Wrapper) }
+enum OptMode { Plain, Some, None, Wrapped(Wrapper), /// Arc<Child>: closes through CloseValueRef to the child's entry; the model sees a plain flatten
+    Arc }
 #[derive(Clone, Debug, PartialEq)]
 enum Leaf {
-    /// ty: 0 u64, 1 u32, 2 u16, 3 u8, 4 usize, 5 bool, 6 f64, 7 f32, 8 Duration
+    /// ty: 0 u64, 1 u32, 2 u16, 3 u8, 4 usize, 5 bool, 6 f64, 7 f32, 8 Duration, 9 Arc<Mutex<u64>>, 10 Mutex<u64>
+    /// (the Mutex forms close to Some(n): the model sees the number)
     Num { o: Obs, u: u32, ty: u8 },
-    /// ty: 0 &'static str, 1 String
+    /// ty: 0 &'static str, 1 String, 2 Arc<String>, 3 Cow<'static, str>
     Str { s: String, ty: u8 },
     Enum { ra: u8, vs: Vec<(String, Option<String>)>, i: usize },
     Val { unit: Option<u32>, inner: Box<Leaf>, nign: u8, named: bool },
@@ -86,7 +88,7 @@ fn enc_wrapper(w: &Wrapper) -> Sx {
     match w { Wrapper::Dims(d) => sx::tag(0, vec![enc_pairs(d)]), Wrapper::Forced => sx::tag(1, vec![]) }
 }
 fn enc_optmode(o: &OptMode) -> Sx {
-    match o { OptMode::Plain => sx::n(0u8), OptMode::Some => sx::n(1u8), OptMode::None => sx::n(2u8), OptMode::Wrapped(w) => sx::tag(3, vec![enc_wrapper(w)]) }
+    match o { OptMode::Plain => sx::n(0u8), OptMode::Some => sx::n(1u8), OptMode::None => sx::n(2u8), OptMode::Wrapped(w) => sx::tag(3, vec![enc_wrapper(w)]), OptMode::Arc => sx::n(4u8) }
 }
 fn enc_vcall(v: &VCall) -> Sx {
     match v {
@@ -164,7 +166,7 @@ fn dec_obs(k: &Sx, p: &Sx) -> Obs { if k.num() == 0 { Obs::U(p.num() as u64) } e
 fn dec_pairs(x: &Sx) -> Vec<(String, String)> { x.list().iter().map(|y| (s_of(&y.list()[0]), s_of(&y.list()[1]))).collect() }
 fn dec_wrapper(x: &Sx) -> Wrapper { if x.tag() == 0 { Wrapper::Dims(dec_pairs(x.arg(0))) } else { Wrapper::Forced } }
 fn dec_optmode(x: &Sx) -> OptMode {
-    match x { Sx::A(_, 1) => OptMode::Some, Sx::A(_, 2) => OptMode::None, Sx::L(_) if x.tag() == 3 => OptMode::Wrapped(dec_wrapper(x.arg(0))), _ => OptMode::Plain }
+    match x { Sx::A(_, 1) => OptMode::Some, Sx::A(_, 2) => OptMode::None, Sx::A(_, 4) => OptMode::Arc, Sx::L(_) if x.tag() == 3 => OptMode::Wrapped(dec_wrapper(x.arg(0))), _ => OptMode::Plain }
 }
 fn dec_vcall(x: &Sx) -> VCall {
     match x.tag() {
@@ -260,10 +262,17 @@ impl Render {
                     5 => ("bool".into(), format!("{}", n != 0)),
                     6 => ("f64".into(), format!("f64::from_bits({n:#x}u64)")),
                     7 => ("f32".into(), format!("(f64::from_bits({n:#x}u64) as f32)")),
+                    9 => ("Arc<Mutex<u64>>".into(), format!("Arc::new(Mutex::new({n}u64))")),
+                    10 => ("Mutex<u64>".into(), format!("Mutex::new({n}u64)")),
                     _ => ("Duration".into(), format!("Duration::from_millis(f64::from_bits({n:#x}u64) as u64)")),
                 }
             }
-            Leaf::Str { s, ty } => if *ty == 0 { ("&'static str".into(), lit(s)) } else { ("String".into(), format!("String::from({})", lit(s))) },
+            Leaf::Str { s, ty } => match ty {
+                0 => ("&'static str".into(), lit(s)),
+                1 => ("String".into(), format!("String::from({})", lit(s))),
+                2 => ("Arc<String>".into(), format!("Arc::new(String::from({}))", lit(s))),
+                _ => ("Cow<'static, str>".into(), format!("Cow::Borrowed({})", lit(s))),
+            },
             Leaf::Enum { ra, vs, i } => {
                 let name = self.fresh("MqE");
                 let mut attrs = vec!["value(string)".to_string()];
@@ -345,6 +354,7 @@ impl Render {
                     OptMode::Some => (a, format!("Option<{ty}>"), format!("Some({ex})")),
                     OptMode::None => (a, format!("Option<{ty}>"), "None".into()),
                     OptMode::Wrapped(w) => { let (t, e) = Self::wrap(w, ty, ex); (a, t, e) }
+                    OptMode::Arc => (a, format!("Arc<{ty}>"), format!("Arc::new({ex})")),
                 }
             }
             Kind::FlattenEntry { raw, rawsg, no_close } => {
@@ -481,6 +491,7 @@ use metrique::writer::value::{FlagConstructor, ForceFlag, MetricOptions, WithDim
 use std::borrow::Cow;
 use std::fmt::Write as _;
 use std::time::{Duration, SystemTime, UNIX_EPOCH};
+use std::sync::{Arc, Mutex};
 
 fn hex(s: &str) -> String { let mut o = String::from("\""); for b in s.bytes() { write!(o, "{:02x}", b).unwrap(); } o.push('"'); o }
 fn unit_code(u: Unit) -> u64 {
@@ -606,11 +617,33 @@ fn render_bin(cases: &[&Case]) -> String {
 fn repo_dir() -> String { std::env::var("VERIF_REPO").unwrap_or_else(|_| "/repo".to_string()) }
 fn gen_dir() -> PathBuf { Path::new(env!("CARGO_MANIFEST_DIR")).join("c07gen") }
 
+/// Two checks against the same repository share the generated crate's directory: serialise them with a lock
+/// directory (stale after 40 minutes).
+struct DirLock(PathBuf);
+impl DirLock {
+    fn acquire(dir: &Path) -> DirLock {
+        let _ = std::fs::create_dir_all(dir);
+        let p = dir.join(".lock");
+        loop {
+            match std::fs::create_dir(&p) {
+                Ok(()) => return DirLock(p),
+                Err(_) => {
+                    let stale = std::fs::metadata(&p).and_then(|m| m.modified()).ok()
+                        .and_then(|t| t.elapsed().ok()).map(|d| d.as_secs() > 2400).unwrap_or(false);
+                    if stale { let _ = std::fs::remove_dir(&p); } else { std::thread::sleep(std::time::Duration::from_millis(500)); }
+                }
+            }
+        }
+    }
+}
+impl Drop for DirLock { fn drop(&mut self) { let _ = std::fs::remove_dir(&self.0); } }
+
 /// Writes the generated crate (nbins bins), builds it against the repository worktree and runs every bin.
 /// Returns one output line per case, in the order of `cases`.
 fn build_and_run(cases: &[&Case], nbins: usize, notes: &mut Vec<String>) -> Result<Vec<String>, String> {
     if cases.is_empty() { return Ok(vec![]); }
     let dir = gen_dir();
+    let _lock = DirLock::acquire(&dir);
     let repo = repo_dir();
     let bindir = dir.join("src").join("bin");
     let _ = std::fs::remove_dir_all(dir.join("src"));
@@ -807,8 +840,9 @@ impl Gen {
     }
 
     fn num_leaf(&mut self) -> Leaf {
-        let ty = self.rng.below(9) as u8;
+        let ty = self.rng.below(11) as u8;
         let (o, u) = match ty {
+            9 | 10 => (Obs::U(self.rng.below(1 << 50)), 0),
             0 => (Obs::U(*self.rng.pick(&[0, 1, 42, u64::MAX, 1 << 53, 999_999_999_999])), 0),
             1 => (Obs::U(*self.rng.pick(&[0, 7, u32::MAX as u64])), 0),
             2 => (Obs::U(*self.rng.pick(&[0, 512, u16::MAX as u64])), 0),
@@ -866,7 +900,8 @@ impl Gen {
             return (l, None);
         }
         let l = match self.rng.below(12) {
-            0 | 1 => Leaf::Str { s: self.text(), ty: if by_ref { 0 } else { self.rng.below(2) as u8 } },
+            // by reference only &'static str and Arc<String> can be closed
+            0 | 1 => Leaf::Str { s: self.text(), ty: if by_ref { *self.rng.pick(&[0u8, 0, 2]) } else { self.rng.below(4) as u8 } },
             2 => self.value_enum(),
             3 if depth < 2 => {
                 let (i, u) = self.leaf(false, true, depth + 1, forced);
@@ -921,13 +956,15 @@ impl Gen {
             let want_flatten = depth < maxdepth && self.rng.chance(if self.long { 55 } else { 30 }, 100);
             let r = self.rng.below(100);
             let k = if want_flatten {
-                let child_by_ref = if by_ref { true } else { self.rng.chance(1, 2) };
-                let o = match self.rng.below(8) {
+                let o = match self.rng.below(9) {
                     0 | 1 | 2 => OptMode::Plain,
                     3 | 4 => OptMode::Some,
                     5 => OptMode::None,
+                    6 => OptMode::Arc,
                     _ => self.wrapper(by_ref, forced).map(OptMode::Wrapped).unwrap_or(OptMode::Plain),
                 };
+                // Arc<Child> closes through CloseValueRef: the child must be closable by reference
+                let child_by_ref = if by_ref || o == OptMode::Arc { true } else { self.rng.chance(1, 2) };
                 let child_forced = forced || o == OptMode::Wrapped(Wrapper::Forced);
                 let d = self.def(depth + 1, maxdepth, if child_by_ref { 1 } else { 2 }, child_forced);
                 let p = if self.long || self.rng.chance(3, 5) {
@@ -1093,7 +1130,7 @@ fn count_tree(d: &Def, depth: u32, out: &mut Out) {
             }
             Kind::Flatten { p, o, d } => {
                 out.count(match p { None => "flatten", Some(Pfx::Infl(_)) => "flatten_prefix", Some(Pfx::Exact(_)) => "flatten_exact_prefix" });
-                out.count(match o { OptMode::Plain => "flatten_plain", OptMode::Some => "flatten_option_some", OptMode::None => "flatten_option_none", OptMode::Wrapped(Wrapper::Dims(_)) => "flatten_with_dimensions", OptMode::Wrapped(Wrapper::Forced) => "flatten_force_flag" });
+                out.count(match o { OptMode::Plain => "flatten_plain", OptMode::Some => "flatten_option_some", OptMode::None => "flatten_option_none", OptMode::Wrapped(Wrapper::Dims(_)) => "flatten_with_dimensions", OptMode::Wrapped(Wrapper::Forced) => "flatten_force_flag", OptMode::Arc => "flatten_arc" });
                 count_tree(d, depth + 1, out);
             }
             Kind::FlattenEntry { .. } => out.count("flatten_entry"),
